@@ -15,6 +15,7 @@ ContainerElement = (
     block.ListItem,
     block.Paragraph,  # Paragraphs contain inline elements
     block.Heading,  # Already handled, but include for completeness if structure changes
+    block.SetextHeading,  # Written back as an ATX heading, so it must be treated like one
     inline.Emphasis,
     inline.StrongEmphasis,
     inline.Link,
@@ -30,6 +31,7 @@ ContainerElement = (
 InlineScope = (
     block.Paragraph,
     block.Heading,
+    block.SetextHeading,
     gfm_elements.TableCell,
 )
 
